@@ -1828,11 +1828,14 @@ class ForAll(QuantifiedConditional):
 
     @cached_property
     def condition_unique_variable_ids(self) -> List[int]:
+        # a predicate / symbolic function is a variable whose value is computed from its arguments: its value for one
+        # value of the universal variable must not be kept for the next one
         return [
             v.id_
             for v in self.condition._unique_variables_.difference(
                 self.left._unique_variables_
             )
+            if not v.value._should_be_instantiated_
         ]
 
     def _evaluate__(
